@@ -581,6 +581,9 @@ func genC14Subject(r *Rand, i int) *c14Subject {
 			if vl := r.Intn(30); vl > 0 {
 				m.Value = r.Bytes(vl)
 			}
+			if si == 1 && j == 1 {
+				m.Key, m.Value = nil, nil // a record that is nothing but its header and trailer
+			}
 			t += int64(r.Intn(3))
 			off++
 			if r.Chance(0.2) {
